@@ -66,6 +66,22 @@ def rand_ops(rng, c, n):
             ops.append(("derived", rng.randrange(1 << 30)))
         else:
             ops.append(("setattr", rng.randrange(1 << 30)))
+    # sliding windows over one track, each beginning exactly where the one before ended, the boundaries on notes (a rate graph):
+    # every window counts the note on its left edge whatever was asked before
+    tracks_ = [(ins.index(i), dif.index(d), tr) for i, dd in c.instrument_tracks.items() for d, tr in dd.items() if len(tr.note_events) >= 3]
+    if tracks_ and rng.random() < 0.5:
+        i_, d_, tr = rng.choice(tracks_)
+        evs = tr.note_events
+        cut = sorted(rng.sample(range(len(evs)), min(len(evs), rng.randint(3, 6))))
+        us_ = lambda td: td // timedelta(microseconds=1)  # noqa: E731
+        if rng.random() < 0.5:
+            chain = [("nps", i_, d_, "ticks", evs[a].tick, evs[b].tick - evs[a].tick) for a, b in zip(cut, cut[1:]) if evs[b].tick > evs[a].tick]
+        else:
+            chain = [("nps", i_, d_, "tspan", us_(evs[a].timestamp), us_(evs[b].timestamp)) for a, b in zip(cut, cut[1:]) if evs[b].timestamp > evs[a].timestamp]
+        at = rng.randint(0, len(ops))
+        ops[at:at] = chain
+    for _ in range(rng.choice([0, 1, 2])):
+        ops.insert(rng.randint(0, len(ops)), ("iterpart", rng.randrange(1 << 30)))
     be = c.sync_track.bpm_events
     if len(be) > 20:
         # a long tempo map: a lookup deep into it, then before its start, then in its middle, then at its very end
@@ -131,7 +147,8 @@ def apply(c, twin, op):
         if kind == "nps":
             _, i, d, form, a, b = op
             args = {"none": (), "tick": (a,), "ticks": (a, a + b), "time": (timedelta(microseconds=a * 1000),),
-                    "times": (timedelta(microseconds=a), timedelta(microseconds=a + b * 1000)), "neg": (-1,)}.get(form, (a + b + 1, a))
+                    "times": (timedelta(microseconds=a), timedelta(microseconds=a + b * 1000)), "neg": (-1,),
+                    "tspan": (timedelta(microseconds=a), timedelta(microseconds=b))}.get(form, (a + b + 1, a))
             _detail[0] = _val(lambda: c.notes_per_second(ins[i], dif[d], *args))
             return "ValueError" if _detail[0] == "VE" else "found"
         if kind == "tsat":
@@ -156,6 +173,30 @@ def apply(c, twin, op):
             return "unit" if (c == twin and twin == c) else "NOT-EQUAL"
         if kind == "ne":
             return "unit" if not (c != twin) else "NOT-EQUAL"
+        if kind == "iterpart":
+            # the public sequences walked the ways readers walk them: a loop left early, a first element, membership, a reversed walk, a
+            # second iterator started before the first is exhausted
+            seqs = [c.sync_track.bpm_events, c.sync_track.time_signature_events, c.sync_track.anchor_events, c.global_events_track.text_events,
+                    c.global_events_track.section_events, c.global_events_track.lyric_events]
+            for dd in c.instrument_tracks.values():
+                for tr in dd.values():
+                    seqs += [tr.note_events, tr.star_power_events, tr.track_events]
+            x = seqs[op[1] % len(seqs)]
+            how = (op[1] >> 8) % 5
+            if how == 0:
+                for _e in x:
+                    break
+            elif how == 1:
+                next(iter(x), None)
+            elif how == 2:
+                it1, it2 = iter(x), iter(x)
+                next(it1, None), next(it1, None), next(it2, None)
+            elif how == 3:
+                _ = (x[len(x) // 2] in x) if len(x) else (None in x)
+            else:
+                for _e in reversed(x):
+                    break
+            return "unit"
         ev, tracks = events_of(c)
         if kind == "hash":
             if ev:
@@ -243,7 +284,8 @@ def run_case(text, ops):
         # with nothing asked before it, answers the same (checked for the value-producing operations, a bounded sample per case)
         idx = [k for k, op in enumerate(ops) if op[0] in ("tsat", "nps")]
         neg = [k for k in idx if ops[k][0] == "tsat" and ops[k][1] < 0][:6]  # refusals are where remembered state shows
-        idx = sorted(set(idx[:4] + idx[4:][-8:] + neg))  # the first few, the ones with the longest past, the refused ones
+        slid = [k for k in idx if ops[k][0] == "nps" and ops[k][3] in ("ticks", "tspan")][:8]  # windows that follow one another
+        idx = sorted(set(idx[:4] + idx[4:][-8:] + neg + slid))  # the first few, the ones with the longest past, the refused ones
         for k in idx:
             fresh, _, _ = impl.parse(text)
             apply(fresh, twin, ops[k])
